@@ -184,74 +184,84 @@ Proof.
   rewrite (HI def (or_introl eq_refl)). f_equal. apply IH. intros; apply HI; right; assumption.
 Qed.
 
-(* ------------------------------------------------------------------ @skip/@include: idempotent *)
+(* ------------------------------------------------------------------ @skip/@include: idempotent once settled *)
+(* Because of the skipped positions of the directive walk (Model.walk_dirs) one run can leave an
+   evaluable @skip/@include behind; the pass is idempotent on documents where every remaining
+   directive is one it keeps. *)
 Section IsIdem.
   Variable jv : list (bytes * json).
   Variable vdefs : list vardef.
 
-  Lemma eval_dirs_fix : forall ds ds', eval_dirs jv vdefs ds = Some ds' -> eval_dirs jv vdefs ds' = Some ds'.
+  Definition keeps (d : directive) : bool :=
+    match dir_verdict jv vdefs d with DKeep => true | _ => false end.
+  Fixpoint settled_sel (s : selection) : bool :=
+    forallb keeps (sel_dirs s) &&
+    match s with
+    | SField _ _ _ _ sub | SInline _ _ sub => forallb settled_sel sub
+    | SSpread _ _ => true
+    end.
+
+  Lemma walk_dirs_keep : forall todo k m b,
+      Forall (fun p => keeps (snd p) = true) b ->
+      walk_dirs jv vdefs todo k m b = Some (map snd (firstn m b)).
   Proof.
-    induction ds as [|d r IH]; intros ds' E; cbn [eval_dirs] in E; [inversion E; reflexivity|].
-    destruct (dir_verdict jv vdefs d) eqn:Ev; [discriminate|apply IH; exact E|].
-    destruct (eval_dirs jv vdefs r) as [r'|]; [|discriminate]. inversion E; subst.
-    cbn [eval_dirs]. rewrite Ev, (IH r' eq_refl). reflexivity.
+    induction todo as [|t IH]; intros k m b H; cbn [walk_dirs]; [reflexivity|].
+    destruct (nth_error b k) as [[id d]|] eqn:En; [|reflexivity].
+    rewrite Forall_forall in H. pose proof (H _ (nth_error_In _ _ En)) as Hk. cbn in Hk. unfold keeps in Hk.
+    destruct (dir_verdict jv vdefs d); try discriminate. apply IH. apply Forall_forall. exact H.
+  Qed.
+  Lemma eval_dirs_keep : forall ds, forallb keeps ds = true -> eval_dirs jv vdefs ds = Some ds.
+  Proof.
+    intros ds H. unfold eval_dirs. rewrite walk_dirs_keep.
+    - rewrite firstn_all2 by (rewrite combine_length, seq_length, Nat.min_id; lia).
+      rewrite combine_seq_snd. reflexivity.
+    - apply Forall_forall. intros [i d] Hin. cbn. apply in_combine_r in Hin.
+      rewrite forallb_forall in H. apply H. exact Hin.
   Qed.
 
-  Lemma placeholder_fix : is_sel jv vdefs placeholder = [placeholder].
-  Proof. reflexivity. Qed.
-
-  Definition stable (x : selection) : Prop := is_sel jv vdefs x = [x].
-
-  Lemma flat_map_stable : forall l, Forall stable l -> flat_map (is_sel jv vdefs) l = l.
-  Proof. induction 1 as [|x l Hx Hl IH]; cbn; [reflexivity|]. rewrite Hx, IH. reflexivity. Qed.
-
-  Lemma close_stable : forall sub res, Forall stable res -> Forall stable (close_sub sub res).
+  Lemma is_walk_settled : forall f,
+      (forall s, settled_sel s = true -> is_node jv vdefs f s = Some s) /\
+      (forall l, forallb settled_sel l = true -> is_set jv vdefs f l = l).
   Proof.
-    intros sub res H. unfold close_sub. destruct sub; [exact H|]. destruct res; [|exact H].
-    constructor; [exact placeholder_fix|constructor].
+    induction f as [|f [IHA IHB]]; [split; reflexivity|]. split.
+    - intros s Hs. rewrite is_node_S.
+      destruct s as [a n args ds sub|c ds sub|fn ds]; cbn [settled_sel sel_dirs] in *;
+        apply andb_prop in Hs; destruct Hs as [Hd Hsub]; rewrite (eval_dirs_keep _ Hd); try rewrite (IHB _ Hsub); reflexivity.
+    - intros l Hl. rewrite is_set_S.
+      assert (E : is_pass jv vdefs f l = (l, false)).
+      { induction l as [|s r IH]; [reflexivity|]. cbn [forallb] in Hl. apply andb_prop in Hl. destruct Hl as [H1 H2].
+        cbn [is_pass]. rewrite (IHA s H1), (IH H2). reflexivity. }
+      rewrite E. reflexivity.
   Qed.
-  Lemma close_nonempty_fix : forall sub res, close_sub (close_sub sub res) (close_sub sub res) = close_sub sub res.
-  Proof. intros [|s sub] [|r res]; reflexivity. Qed.
-
-  Lemma is_sel_stable : forall s, Forall stable (is_sel jv vdefs s).
-  Proof.
-    induction s using sel_ind'; rewrite is_sel_cases; cbn [sel_dirs];
-      destruct (eval_dirs jv vdefs ds) as [ds'|] eqn:E; try constructor; try constructor.
-    - assert (HS : Forall stable (close_sub sub (flat_map (is_sel jv vdefs) sub))).
-      { apply close_stable. clear -H. induction H as [|x l Hx Hl IH]; cbn; [constructor|]. apply Forall_app. split; assumption. }
-      unfold stable. rewrite is_sel_cases. cbn [sel_dirs]. rewrite (eval_dirs_fix _ _ E).
-      rewrite (flat_map_stable _ HS). rewrite close_nonempty_fix. reflexivity.
-    - assert (HS : Forall stable (close_sub sub (flat_map (is_sel jv vdefs) sub))).
-      { apply close_stable. clear -H. induction H as [|x l Hx Hl IH]; cbn; [constructor|]. apply Forall_app. split; assumption. }
-      unfold stable. rewrite is_sel_cases. cbn [sel_dirs]. rewrite (eval_dirs_fix _ _ E).
-      rewrite (flat_map_stable _ HS). rewrite close_nonempty_fix. reflexivity.
-    - unfold stable. rewrite is_sel_cases. cbn [sel_dirs]. rewrite (eval_dirs_fix _ _ E). reflexivity.
-  Qed.
-
-  Lemma is_sels_idem : forall l, is_sels jv vdefs (is_sels jv vdefs l) = is_sels jv vdefs l.
-  Proof.
-    intro l.
-    assert (HS : Forall stable (is_sels jv vdefs l)).
-    { change (is_sels jv vdefs l) with (close_sub l (flat_map (is_sel jv vdefs) l)). apply close_stable.
-      induction l as [|x l IH]; cbn; [constructor|]. apply Forall_app. split; [apply is_sel_stable|exact IH]. }
-    change (is_sels jv vdefs (is_sels jv vdefs l))
-      with (close_sub (is_sels jv vdefs l) (flat_map (is_sel jv vdefs) (is_sels jv vdefs l))).
-    rewrite (flat_map_stable _ HS).
-    destruct (is_sels jv vdefs l); reflexivity.
-  Qed.
+  Lemma is_sels_settled : forall f l, forallb settled_sel l = true -> is_sels jv vdefs f l = l.
+  Proof. intros f l H. apply (proj2 (is_walk_settled f)). exact H. Qed.
 End IsIdem.
+
+Definition settled (jv : list (bytes * json)) (d : document) : bool :=
+  let vdefs := doc_vardefs d in
+  forallb (fun def => match def with
+                      | DOp o => forallb (settled_sel jv vdefs) (op_sels o)
+                      | DFrag f => forallb (settled_sel jv vdefs) (fr_sels f)
+                      end) d.
 
 Lemma doc_vardefs_rewrite : forall fo ff d, doc_vardefs (doc_rewrite fo ff d) = doc_vardefs d.
 Proof. unfold doc_rewrite. induction d as [|[o|f] d IH]; cbn; [reflexivity|rewrite IH; reflexivity|exact IH]. Qed.
 
-Theorem include_skip_idempotent : forall jv d, include_skip jv (include_skip jv d) = include_skip jv d.
+Lemma include_skip_settled_fix : forall jv d, settled jv d = true -> include_skip jv d = d.
 Proof.
-  intros jv d.
-  assert (Ev : doc_vardefs (include_skip jv d) = doc_vardefs d) by (rewrite include_skip_rewrite; apply doc_vardefs_rewrite).
-  unfold include_skip at 1. cbv zeta. rewrite Ev.
-  unfold include_skip. cbv zeta. rewrite map_map. apply map_ext.
-  intros [o|f]; cbn; f_equal; f_equal; apply is_sels_idem.
+  intros jv d H. unfold settled in H. cbv zeta in H. rewrite forallb_forall in H.
+  unfold include_skip. cbv zeta. generalize dependent (doc_vardefs d). generalize (include_skip_fuel d). intros fu vdefs H.
+  induction d as [|def d IH]; cbn; [reflexivity|].
+  rewrite IH by (intros x Hx; apply H; right; exact Hx). f_equal.
+  pose proof (H def (or_introl eq_refl)) as Hd. destruct def as [o|f].
+  - rewrite (is_sels_settled jv vdefs fu _ Hd). destruct o; reflexivity.
+  - rewrite (is_sels_settled jv vdefs fu _ Hd). destruct f; reflexivity.
 Qed.
+
+Theorem include_skip_idempotent_partial : forall jv d,
+    settled jv (include_skip jv d) = true ->
+    include_skip jv (include_skip jv d) = include_skip jv d.
+Proof. intros jv d H. apply include_skip_settled_fix. exact H. Qed.
 
 (* ------------------------------------------------------------------ composition of the proved passes *)
 Lemma resp_le_trans : forall a b c, resp_le a b -> resp_le b c -> resp_le a c.
